@@ -14,11 +14,12 @@ EXPLANATION = (
     "value distinct from the decorator argument is planted); C02.T3 entry time and expiry are written only by an initial call of "
     "that state; C02.T4 the decorator creates '<state>_duration' as tunable(<decorator duration>, writeDefault=False, "
     "subtable='state') under exactly the name the engine reads.  The induction from these per-call facts to 'a chain lasts the sum "
-    "of its durations and state_tm >= 0' is written in DESIGN.md section 7 (C02) and assumes a non-decreasing clock."
+    "of its durations and state_tm >= 0' is written in DESIGN.md section 7 (C02) and assumes a non-decreasing clock.  C02.T6 a state entered by request / engage() / fallback receives state_tm == 0 on that call (its clock starts at entry, so it lasts its duration from there); ISO: nothing is shared between two machines of one class."
 )
 RULE = "one case = one (typestate, client call, oracle resolution) transition; distinct = reachable typestates"
 EXHAUSTIVE = True
-OWNED = {"C02.M1", "C02.T1", "C02.T2", "C02.T3", "C02.T5", "CRASH"}
+OWNED = {"C02.M1", "C02.T1", "C02.T2", "C02.T3", "C02.T5", "C03.T2", "CRASH", "ISO"}
+RENAME = {"C03.T2": "C02.T6"}
 
 
 def check(ctx):
@@ -29,8 +30,10 @@ def check(ctx):
     ctx.rule("C02.T3", "entry time and expiry of a state are rewritten only by an initial call of that state")
     ctx.rule("C02.T5", "the machine start instant is re-based only in iterations whose state calls are all initial calls (premise of state_tm >= 0 and of 'every repetition lasts as long as the first')")
     ctx.rule("C02.T4", "<state>_duration is created by the decorator as tunable(duration, writeDefault=False, subtable='state') under the name the engine reads")
+    ctx.rule("C02.T6", "a state entered by request / engage() / fallback starts its clock at that call (state_tm == 0), so it lasts its duration from entry")
+    ctx.rule("ISO", "calls on one instance never change the heap reachable from another instance of the same class")
     res = smcommon.run_universes(ctx, "StateMachine", owned=OWNED)
-    smcommon.report(ctx, res, OWNED)
+    smcommon.report(ctx, res, OWNED, RENAME)
     ctx.floor("universes", len(res), 4)
     ctx.floor("state function calls with timing checked", sum(r["timing_checked"] for r in res), 10000)
     # C02.T4 on the class the decorators built
